@@ -11,11 +11,11 @@ Definition Qsqrt (q : Q) : Q :=
    whose Python .derivative(x) returns the linear operator d |-> (3 x^2 - 1) * d *)
 Definition cubic (a : Q) : Q := Qred (a * a * a - a).
 Definition cubic' (a : Q) : Q := Qred (3 * a * a - 1).
-Definition primsQv (v : bool) : prims Q := {|
+Definition primsQ : prims Q := {|
   tr := fun _ _ => 0; rt := Qsqrt;
   afun := fun _ x => map cubic x;
   ader := fun _ x0 d => vmul (map cubic' x0) d;
-  adom := fun k => SV k; aran := fun k => SV k; rsv := v |}.
+  adom := fun k => SV k; aran := fun k => SV k |}.
 
 Definition atol : Q := 1 # 1000000000.
 Definition rtol : Q := 1 # 1000000000.
@@ -78,14 +78,12 @@ Inductive dres :=
 
 Record case := {
   c_e : oexpr (T:=Q);       (* the operator, serialised from the Python object *)
-  c_rsv : bool;             (* measured variant of OperatorRightScalarMult.derivative *)
   c_x : list Q; c_d : list Q;
   c_lin : bool;             (* op.is_linear *)
   c_val : list Q;           (* op(x) *)
   c_der : dres }.
 
 Definition check (k : case) : bool :=
-  let primsQ := primsQv (c_rsv k) in
   let e := c_e k in let x := c_x k in
   wt primsQ e && Nat.eqb (length x) (sdim (dom primsQ e)) && Nat.eqb (length (c_d k)) (sdim (dom primsQ e))
   && beq (is_lin e) (c_lin k)
@@ -120,7 +118,7 @@ Fixpoint lookup (g : ufn) (tab : list (ufn * list Q)) : option (list Q) :=
 Definition prims_at (tab : list (ufn * list Q)) (i : nat) : prims Q := {|
   tr := fun g _ => match lookup g tab with Some v => nth i v 0 | None => 0 end;
   rt := fun _ => match lookup Usqrt tab with Some v => nth i v 0 | None => 0 end;
-  afun := fun _ x => x; ader := fun _ _ d => d; adom := fun k => SV k; aran := fun k => SV k; rsv := false |}.
+  afun := fun _ x => x; ader := fun _ _ d => d; adom := fun k => SV k; aran := fun k => SV k |}.
 (* UApp g e with e <> UPoint is only supported for the rational ufuncs *)
 Fixpoint uex_supported (e : uex) : bool :=
   match e with
@@ -147,7 +145,7 @@ Definition ucheck (k : ucase) : bool :=
 From Verif Require Import C06.FModel.
 Record fcase := {
   f_e : fexpr (T:=Q); f_w : list Q;   (* weights of the functional's domain *)
-  f_rzv : bool; f_mav : bool;         (* measured variants, see FModel *)
+  f_mav : bool;                       (* measured variant, see FModel *)
   f_x : list Q; f_d : list Q;
   f_val : Q;                 (* f(x) *)
   f_grad : list Q;           (* f.gradient(x) *)
@@ -157,6 +155,6 @@ Definition fcheck (k : fcase) : bool :=
   let e := f_e k in let x := f_x k in let w := f_w k in
   fwt e && Nat.eqb (length x) (fdim e) && Nat.eqb (length (f_d k)) (fdim e) && Nat.eqb (length w) (fdim e)
   && qc (f_val k) (feval Qsqrt w e x)
-  && qsc (f_grad k) (fgrad Qsqrt (f_rzv k) (f_mav k) w e x)
-  && qc (f_dd k) (wdot w (f_d k) (fgrad Qsqrt (f_rzv k) (f_mav k) w e x))
+  && qsc (f_grad k) (fgrad Qsqrt (f_mav k) w e x)
+  && qc (f_dd k) (wdot w (f_d k) (fgrad Qsqrt (f_mav k) w e x))
   && f_inner k.
